@@ -1,15 +1,20 @@
 """C11: KeyGen and Sign fail cleanly on timeout, cancellation or a vanished peer -- two parts, one verdict:
    (a) orchestrator level (tools/eng_orch.py): TLC-generated call histories with failure of every stage, cancellation, late stages;
-   (b) crash points with the real BLS / PS back ends through the full stack (tools/eng_stack.py): a peer silent after its k-th
-       message for every k, single withheld messages, cancellation at seeded times."""
+   (b) crash points with the real BLS / PS back ends and the EdDSA adapter through the full stack (tools/eng_stack.py): a peer silent
+       after its k-th message for every k, single withheld messages, cancellation at seeded times;
+   (c) the tss-lib adapters called directly (tools/eng_adapters.py c11_part): vanish / withhold / cancel cases enumerated by TLC on the
+       fault extension of spec/Adapters.tla, contexts already expired, deadlines during prime generation, unusable stored share data."""
 import json
 import os
 import sys
 
 sys.path.insert(0, os.path.dirname(os.path.abspath(__file__)))
 import vlib
+import random
+
 import eng_orch
 import eng_stack
+import eng_adapters
 
 
 def run(pid):
@@ -24,20 +29,42 @@ def run(pid):
         del os.environ["VERIF_REPLAY_MODE"]
     with open(ev_path) as f:
         e2 = json.load(f)
+    # (c) adapter level
+    os.environ["VERIF_REPLAY_MODE"] = "1"
+    try:
+        verdict = vlib.Verdict(pid)
+    finally:
+        del os.environ["VERIF_REPLAY_MODE"]
+    wd = vlib.scratch(pid + "a")
+    part = eng_adapters.c11_part(wd, vlib.build_harness(), vlib.tier(), random.Random(vlib.seed()))
+    for sig, desc, obj in part["violations"]:
+        verdict.violation(sig, desc, obj)
+    for k, v in part.get("drift", {}).items():
+        print("DRIFT property=%s count=%d kind=%s" % (pid, v, k))
+    rc3 = verdict.finish()
     cov = e2["coverage"]
     cov["orchestrator_part"] = e1["coverage"]
-    cov["states"] = cov.get("states", 0) + e1["coverage"].get("states", 0)
-    cov["transitions"] = cov.get("transitions", 0) + e1["coverage"].get("transitions", 0)
-    cov["traces_validated_against_impl"] = cov.get("traces_validated_against_impl", 0) + e1["coverage"].get("traces_validated_against_impl", 0)
-    cov["evaluations"] = cov.get("evaluations", 0) + e1["coverage"].get("traces_validated_against_impl", 0)
-    cov["distinct_nontrivial"] = cov.get("distinct_nontrivial", 0) + e1["coverage"].get("traces_validated_against_impl", 0)
-    vlib.write_evidence(pid, "fault_enumeration", cov, e1["assumptions"] + e2["assumptions"], violations=e1.get("violations", 0) + e2.get("violations", 0))
-    return 1 if (rc1 or rc2) else 0
+    cov["adapters_part"] = part.get("coverage", {})
+    cov["states"] = cov.get("states", 0) + e1["coverage"].get("states", 0) + part.get("coverage", {}).get("states", 0)
+    cov["transitions"] = cov.get("transitions", 0) + e1["coverage"].get("transitions", 0) + part.get("coverage", {}).get("transitions", 0)
+    nad = part.get("coverage", {}).get("traces_validated_against_impl", 0)
+    cov["traces_validated_against_impl"] = cov.get("traces_validated_against_impl", 0) + e1["coverage"].get("traces_validated_against_impl", 0) + nad
+    cov["evaluations"] = cov.get("evaluations", 0) + e1["coverage"].get("traces_validated_against_impl", 0) + nad
+    cov["distinct_nontrivial"] = cov.get("distinct_nontrivial", 0) + e1["coverage"].get("traces_validated_against_impl", 0) + nad
+    vlib.write_evidence(pid, "fault_enumeration", cov, e1["assumptions"] + e2["assumptions"] + part.get("assumptions", []),
+                        violations=e1.get("violations", 0) + e2.get("violations", 0) + len(verdict.violations))
+    return 1 if (rc1 or rc2 or rc3) else 0
 
 
 def replay(pid, path):
     with open(path) as f:
         o = json.load(f)
+    if o.get("part") == "adapters":
+        verdict = vlib.Verdict(pid)
+        part = eng_adapters.c11_replay(path)
+        for sig, desc, obj in part["violations"]:
+            verdict.violation(sig, desc, obj)
+        return verdict.finish()
     return eng_stack.replay(pid, path) if "case" in o else eng_orch.replay(pid, path)
 
 
